@@ -6,8 +6,8 @@ Local Open Scope N_scope.
 (* ================================================================== C17: tag filter commutes *)
 Definition filter_cell (ts : list (Z * Z)) (c : gcell) : gcell :=
   {| c_name := c_name c;
-     c_polys := filter (fun p => tag_in ts (p_layer p) (p_type p)) (c_polys c);
-     c_paths := filter (fun h => tag_in ts (h_layer h) (h_type h)) (c_paths c);
+     c_polys := filter (fun p => tag_sel ts (p_layer p) (p_type p)) (c_polys c);
+     c_paths := filter (fun h => tag_sel ts (h_layer h) (h_type h)) (c_paths c);
      c_refs := c_refs c; c_labels := c_labels c |}.
 Definition filter_lib (ts : list (Z * Z)) (l : glib) : glib :=
   {| g_name := g_name l; g_units := g_units l; g_cells := map (filter_cell ts) (g_cells l) |}.
@@ -24,9 +24,9 @@ Lemma commit_filter ts c e : commit (Some ts) (filter_cell ts c) e = filter_cell
 Proof.
   destruct e as [p|h|r|l]; unfold commit, filter_cell; cbn [c_name c_polys c_paths c_refs c_labels].
   - rewrite filter_app. cbn [filter].
-    destruct (tag_in ts (p_layer p) (p_type p)); [reflexivity|]. rewrite app_nil_r. reflexivity.
+    destruct (tag_sel ts (p_layer p) (p_type p)); [reflexivity|]. rewrite app_nil_r. reflexivity.
   - rewrite filter_app. cbn [filter].
-    destruct (tag_in ts (h_layer h) (h_type h)); [reflexivity|]. rewrite app_nil_r. reflexivity.
+    destruct (tag_sel ts (h_layer h) (h_type h)); [reflexivity|]. rewrite app_nil_r. reflexivity.
   - reflexivity.
   - reflexivity.
 Qed.
@@ -99,6 +99,13 @@ Proof.
   destruct (reader_loop rstate (option glib) (step_for_loop None) (S (length bs)) init_state bs)
     as [[[l|] rest]| | | | |]; reflexivity.
 Qed.
+
+(* what the filter compares: a LAYER field 0x8001 is stored as 4294934529 (sign-extended into a uint32); a filter tag
+   with that number selects it, one with 32769 does not, and small tags behave as before *)
+Example tag_sel_wide :
+  tag_sel [(4294934529, 0)%Z] (-32767) 0 = true /\ tag_sel [(32769, 0)%Z] (-32767) 0 = false /\
+  tag_sel [(5, 7)%Z] 5 7 = true /\ tag_sel [(5, 7)%Z] 5 8 = false.
+Proof. vm_compute. repeat split; reflexivity. Qed.
 
 (* ================================================================== C17: timestamps are not read by the loader *)
 (* The loader ignores the payload of BGNLIB (1) and BGNSTR (5) records: rewriting it changes nothing *)
